@@ -320,6 +320,56 @@ def inject(text, anns, ops=None):
             appended.append('\n%s { return %s; }\n' % (proto, cond))
             report['ops'].append('condition of %s (%s...) copied into generated function %s; the statements it guards are dropped'
                                  % (fname, start_re[:40], proto))
+        elif op[0] == 'slice_case':
+            # ('slice_case', function, case label, proto, prologue, epilogue): the statements of one arm of a switch in a
+            # large function are copied verbatim into a generated function  proto { prologue <arm> epilogue }.
+            # The arm is the text after `case LABEL :` (further case labels directly after it are skipped) up to the first
+            # `break ;` at the arm's own nesting level; `goto L ;` becomes `{ epilogue }` (control leaves the arm), statement
+            # labels inside the arm are dropped.  Everything else of the function is dropped.
+            _, fname, label, proto, prologue, epilogue = op
+            defs = find_function_defs(toks, fname)
+            if len(defs) != 1:
+                raise StageError('slice_case %s: %d definitions' % (fname, len(defs)))
+            lb, rb = defs[0][1], defs[0][2]
+            starts = [i for i in range(lb, rb) if toks[i][1] == 'case' and toks[i + 1][1] == label and toks[i + 2][1] == ':']
+            if len(starts) != 1:
+                raise StageError('slice_case %s: case %s found %d times (want 1)' % (fname, label, len(starts)))
+            i = starts[0] + 3
+            while toks[i][1] == 'case' and toks[i + 2][1] == ':':
+                i += 3
+            out = []
+            depth = 0
+            j = i
+            while j < rb:
+                t = toks[j][1]
+                if t in ('{', '('):
+                    depth += 1
+                elif t in ('}', ')'):
+                    depth -= 1
+                    if depth < 0:
+                        raise StageError('slice_case %s/%s: arm runs past the switch' % (fname, label))
+                if depth == 0 and t == 'break' and toks[j + 1][1] == ';':
+                    break
+                if t == 'goto' and toks[j + 2][1] == ';':
+                    out.append('{ ' + epilogue + ' }')
+                    j += 3
+                    continue
+                if t == 'continue' and toks[j + 1][1] == ';':
+                    raise StageError('slice_case %s/%s: arm contains continue' % (fname, label))
+                if depth == 0 and toks[j][0] == 'id' and toks[j + 1][1] == ':' and toks[j - 1][1] in (';', '}', ':') and t not in ('default',):
+                    j += 2  # statement label
+                    continue
+                if depth == 0 and t == 'case' and toks[j + 2][1] == ':':
+                    j += 3  # fall-through into the next arm: keep going
+                    continue
+                out.append(t)
+                j += 1
+            else:
+                raise StageError('slice_case %s/%s: no break found' % (fname, label))
+            body = ' '.join(out)
+            appended.append('\n%s { %s %s %s }\n' % (proto, prologue, body, epilogue))
+            report['ops'].append('arm `case %s` of the switch in %s copied into generated function %s (gotos leave the arm); the rest of %s is dropped'
+                                 % (label, fname, proto.split('(')[0].split()[-1], fname))
         else:
             raise StageError('unknown staging op %r' % (op,))
     inserts.sort(key=lambda x: x[0], reverse=True)
